@@ -182,4 +182,35 @@ Proof.
   - rewrite Ecn. cbn [cfind]. rewrite Pos.eqb_refl. reflexivity.
 Qed.
 
+(** ** a whole collection keeps the invariant; the retry after it *)
+Lemma kgc_try_inv c t s id : KInv c s -> KInv c (kgc_try k terms nl c t s id).
+Proof.
+  intros HK. unfold kgc_try. destruct (kstep c s (KGc t id)) as [[[s' r] rs]|] eqn:E; [|exact HK].
+  apply (kstep_spec k terms nl c s _ s' r rs HK E).
+Qed.
+
+Lemma kgc_ids_inv c t ids : forall s, KInv c s -> KInv c (fold_left (kgc_try k terms nl c t) ids s).
+Proof. induction ids as [|id r IH]; intros s HK; cbn [fold_left]; [exact HK | apply IH, kgc_try_inv, HK]. Qed.
+
+Theorem kcollect_inv c t s : KInv c s -> KInv c (kcollect k terms nl c t s).
+Proof.
+  unfold kcollect. generalize (seq 0 nl). intros ls. revert s. induction ls as [|l r IH]; intros s HK; cbn [fold_left]; [exact HK|].
+  apply IH. unfold kgc_level. apply kgc_ids_inv. exact HK.
+Qed.
+
+(** PARTIAL (see notes/STORECONC.md): after a whole collection by thread [t] the manager is intact and
+    a retry (one thread holds slots) fails iff the table still fills the store.  Not proved in
+    general: [kproj (kcollect c t s) = collect (kproj s)] (shown on the example [kx_collect]), which
+    with C05_sm_collect_count would turn the right-hand side into "no node was unreachable". *)
+Theorem retry_after_gc_partial c t s s1 : KInv c s -> s1 = kcollect k terms nl c t s ->
+  KInv c s1 /\
+  forall tid l lvl ch s' r rs,
+    nth_error (th (i_al (k_i s1))) tid = Some l -> others_idle_p c (i_al (k_i s1)) tid ->
+    kstep c s1 (KGoi tid lvl ch) = Some (s', r, rs) -> find_shape (k_cn s1) lvl ch = None ->
+    (r = KROom <-> length (k_cn s1) = N.to_nat (cap c)).
+Proof.
+  intros HK ->. pose proof (kcollect_inv c t s HK) as HK1. split; [exact HK1|].
+  intros tid l lvl ch s' r rs Hl Ho H Hfs. eapply goi_oom_single; eauto.
+Qed.
+
 End Thms.
